@@ -82,6 +82,8 @@ package ast
 //@   ensures  [alt-frame;C07] forall x parsley.Node, k int :: parsley.ListArr(x) == 0 || (!freshid(parsley.ListArr(x)) && !old(parsley.GhostSpare(parsley.ListArr(x)))) ==> same(parsley.Alt(x, k), old(parsley.Alt(x, k)))
 //@   ghost_return when fresh(*nl) :: parsley.GhostSpare(array(*nl)) = true
 //@   ensures  [wf] wfList(*nl) && len(*nl) >= old(len(*nl))
+//@   ensures  [empty-dedup;C01] typeis[EmptyNode](node) ==> (len(*nl) == old(len(*nl)) + 1 || len(*nl) == old(len(*nl))) && (len(*nl) == old(len(*nl))) == (exists k int :: 0 <= k && k < old(len(*nl)) && same(old((*nl)[k]), node))
+//@   ensures  [plain-append;C01] !typeis[EmptyNode](node) && !typeis[NodeList](node) ==> len(*nl) == old(len(*nl)) + 1 && same((*nl)[len(*nl)-1], node)
 //@   ensures  [prefix;C07] forall k int :: 0 <= k && k < old(len(*nl)) ==> same((*nl)[k], old((*nl)[k]))
 //@   ensures  [arr;C07] (array(*nl) == old(array(*nl)) && offset(*nl) == old(offset(*nl)) && cap(*nl) == old(cap(*nl))) || fresh(*nl)
 //@   ensures  [tail;C07] forall j int :: old(len(*nl)) <= j && j < old(cap(*nl)) ==> same(old(*nl)[0:old(cap(*nl))][j], old((*nl)[0:cap(*nl)][j])) || validElem(old(*nl)[0:old(cap(*nl))][j])
@@ -101,6 +103,7 @@ package ast
 //@   invariant [within] old(within(*nl)) && old(within(node)) ==> within(*nl) && forall j int :: k <= j && j < len(v) ==> within(v[j])
 //@ loop 2 (k rangeindex, cur []parsley.Node)
 //@   invariant 0 <= k && k <= len(cur)
+//@   invariant [no-dup-so-far] forall j int :: 0 <= j && j < k ==> !same(cur[j], node)
 
 //@ func AppendNode(n1 parsley.Node, n2 parsley.Node) (r parsley.Node)
 //@   requires (n1 != nil ==> parsley.NodeOK(n1)) && (n2 != nil ==> parsley.NodeOK(n2))
